@@ -83,12 +83,16 @@ Scramble ==
 
 BeginRepair == phase = "scramble" /\ phase' = "repair" /\ UNCHANGED <<K, nflips, nscr>>
 
+\* what the repair is willing to flip (see GEOMETRIC)
+Flippable(KK, U, B) ==
+  IF GEOMETRIC THEN Legal(KK, U, B)
+  ELSE (Applicable(KK, U, B) /\ (\A c \in Created(U, B) : Vol(c) # 0))
+
 RepairStep ==
   /\ phase = "repair"
   /\ \E ub \in Moves :
        /\ Cardinality(ub[2]) \in RepairSizes
-       /\ IF GEOMETRIC THEN Legal(K, ub[1], ub[2])
-          ELSE Applicable(K, ub[1], ub[2]) /\ \A c \in Created(ub[1], ub[2]) : Vol(c) # 0
+       /\ Flippable(K, ub[1], ub[2])
        /\ Violates(ub[1], ub[2])
        /\ K' = Apply(K, ub[1], ub[2])
   /\ nflips' = nflips + 1 /\ UNCHANGED <<phase, nscr>>
@@ -99,10 +103,8 @@ Spec == Init /\ [][Next]_vars /\ WF_vars(RepairStep)
 ---------------------------------------------------------------------------
 NoStrictlyInside(KK) == \A c \in KK : \A v \in Ids \ c : InSphere(PtsOf(c), P[v]) <= 0
 HasRepairMove(KK) ==
-  \E ub \in Moves : /\ Cardinality(ub[2]) \in RepairSizes
-                     /\ IF GEOMETRIC THEN Legal(KK, ub[1], ub[2])
-                        ELSE Applicable(KK, ub[1], ub[2]) /\ \A c \in Created(ub[1], ub[2]) : Vol(c) # 0
-                     /\ Violates(ub[1], ub[2])
+  \E ub \in Moves :
+    (Cardinality(ub[2]) \in RepairSizes) /\ Flippable(KK, ub[1], ub[2]) /\ Violates(ub[1], ub[2])
 
 \* oracle sanity: every triangulation reached by legal moves is a valid ball covering the hull
 EveryStateIsATriangulation ==
